@@ -520,6 +520,8 @@ func (in *Interp) zero(t types.Type) Value {
 		return time.Time{}
 	case opBuilder:
 		return &Builder{v: ""}
+	case opNativeZero:
+		return Native{}
 	}
 	switch t := t.(type) {
 	case *types.Basic:
